@@ -14,5 +14,9 @@ Definition dispatch (u : Z) (a : sx) : sx :=
   | 5 => u_quota_distributor true a
   | 6 => u_quota a
   | 7 => u_quota_selector a
+  | 8 => u_threshold a
+  | 9 => u_bracket a
+  | 10 => u_openlist a
+  | 11 => u_break_by_list a
   | _ => bad_input
   end.
